@@ -52,7 +52,10 @@ def gen_nodes(rng):
                     nd["emit_on_form"] = rng.choice(["list", "int", "stream", "streams", "mixed"] if len(nd["emit_on"]) == 1 else ["list", "streams", "mixed"])
             nodes.append(nd)
         else:
-            nodes.append({"kind": "sink", "mode": "sync", "f": ["id"], "ups": [rng.choice(cands)]})
+            nd = {"kind": "sink", "mode": "sync", "f": ["id"], "ups": [rng.choice(cands)]}
+            if rng.random() < 0.3:
+                nd["detached"] = True       # sink(None, f) built through the class, then upstream.connect(sink)
+            nodes.append(nd)
     for i, nd in enumerate(list(nodes)):
         if nd["kind"] in ("zip", "combine_latest") and not any(i in m.get("ups", []) for m in nodes):
             nodes.append({"kind": "sink", "mode": "sync", "f": ["id"], "ups": [i]})
